@@ -218,6 +218,13 @@ def _opk(op):
 
 
 # ----------------------------------------------------------------------------------------------
+# which stored spectrum decides the mode order (near-ties there make the order ill-defined): OPA's score norms
+# are equal by construction (its order comes from the decorrelation times); POP's conjugate pairs have equal
+# norms and POP is observed through order-free invariants anyway
+_SORT_KEYS = {"*": ("norms", "singular_values", "explained_variance", "squared_covariance"),
+              "OPA": ("decorrelation_time",), "POP": ()}
+
+
 def _fragile(model) -> str | None:
     """Near-ties on the *reference* that make sign or order decisions ill-defined (DESIGN 2.7)."""
     data = getattr(model, "data", {})
@@ -235,7 +242,7 @@ def _fragile(model) -> str | None:
                 hi, lo = row.max(), row.min()
                 if abs(abs(hi) - abs(lo)) < 1e-5 * max(abs(hi), abs(lo), 1e-300):
                     return f"sign of a mode of {key} is decided by a near-tie"
-        if key in ("norms", "singular_values", "explained_variance", "squared_covariance", "decorrelation_time") and v.ndim == 1:
+        if key in _SORT_KEYS.get(type(model).__name__, _SORT_KEYS["*"]) and v.ndim == 1:
             s = np.sort(np.abs(v))[::-1]
             if s.size > 1 and np.any(np.abs(np.diff(s)) < 1e-6 * s[0]):
                 return f"two values of {key} are within 1e-6 (mode order ill-defined)"
